@@ -466,6 +466,57 @@ Definition par_verify (c roc : mclass) (payload : option msg) (m : msg) : res ms
   if has_key (PS "request") m then unpack_request false c roc payload m
   else _ <- generic_verify c m ;; Ok m.
 
+(* ================================ embedded signed objects, symbolically ================================
+   What Message.from_jwt(txt, keyjar) is handed, with the cryptography symbolic: a JWS whose signature verifies
+   under a key of the expected issuer (SigValid), does not (SigBad: altered, foreign key), or whose header
+   says alg none (SigNone: nothing is checked); a bare JSON text; any of these encrypted to the verifier's OWN
+   encryption key (the public half is published: anybody can produce one; decryption is the identity);
+   anything else. *)
+Inductive sigstate := SigValid | SigBad | SigNone.
+Inductive token :=
+| TJws (s : sigstate) (alg : pystr) (p : msg)
+| TJson (p : msg)
+| TJwe (inner : token)
+| TJunk.
+(* the text after the optional decryption: (JWS header alg | None when no JWS was unpacked, content) *)
+Definition open_plain (t : token) : res (option pystr * msg) :=
+  match t with
+  | TJws SigValid alg p => Ok (Some alg, p)
+  | TJws SigNone alg p => Ok (Some alg, p)       (* header alg none: no signature is checked *)
+  | TJson p => Ok (None, p)                      (* not a JWS: json.loads(txt) *)
+  | _ => Unmodelled                              (* the exceptions of cryptojwt are outside the model *)
+  end.
+Definition open_token (t : token) : res (option pystr * msg) :=
+  match t with
+  | TJwe i => open_plain i
+  | TJson _ => Unmodelled                        (* jwe_factory raises on a text that is not compact-serialised *)
+  | _ => open_plain t
+  end.
+Definition token_payload (t : token) : option msg :=
+  match open_token t with Ok (_, p) => Some p | _ => None end.
+(* the token carries a valid signature of the expected issuer made with algorithm a, encrypted or not *)
+Definition signed_with (a : pystr) (t : token) : Prop :=
+  exists p, t = TJws SigValid a p \/ t = TJwe (TJws SigValid a p).
+
+(* an embedded object unpacked into class lc, checked by that class's verify (`rules`), then the
+   allowed_sign_alg keyword: `self.jws_header["alg"] != allowed` - subscripting the missing header of an object
+   that was not unpacked from a JWS raises TypeError, and that is the refusal of unsigned content *)
+Definition EUnsupportedAlg : exc := Refused 16.   (* UnsupportedAlgorithm *)
+Definition alg_check (allowed : option pystr) (hdr : option pystr) : res unit :=
+  match allowed with
+  | None | Some [] => Ok tt
+  | Some a => match hdr with
+              | None => Err TypeError
+              | Some alg => if str_eqb alg a then Ok tt else Err EUnsupportedAlg
+              end
+  end.
+Definition embedded_verify (rules : msg -> res unit) (allowed : option pystr) (lc : mclass) (t : token) : res msg :=
+  hp <- open_token t ;;
+  o <- construct lc (snd hp) ;;
+  _ <- rules o ;;
+  _ <- alg_check allowed (fst hp) ;;
+  Ok o.
+
 (* ================================ comparison helpers ================================ *)
 Definition entry_eqb (a b : pystr * pyval) : bool := str_eqb (fst a) (fst b) && pyval_eqb (snd a) (snd b).
 Definition msg_eqb (a b : msg) : bool := list_eqb entry_eqb a b.
